@@ -188,3 +188,133 @@ Proof.
   - repeat constructor.
   - cbn [chan_lost]. lia.
 Qed.
+
+(* ------------------------------------------------------------------ taking a buffer (the `reuse:` part) *)
+Definition take0 (s : st) (t : tid) (idx : nat) : st :=
+  let b := (t, idx) in
+  let s1 := set_flag s (upd (flag s) b (set_rec (flag s b))) in
+  let s2 := set_curr s1 (updt (curr s1) t (Some idx)) in
+  let s3 := set_data s2 (upd (data s2) b []) in
+  let s4 := shrink s3 t idx in
+  set_chan s4 (chan s4 ++ [MStart b]).
+
+Lemma take_eq s t idx r :
+  take s t idx r = append_rec (if (losts (take0 s t idx) t =? 0)%N then take0 s t idx else marker (take0 s t idx) t (t, idx)) t idx r.
+Proof. reflexivity. Qed.
+
+Lemma shrink_fields s t idx :
+  let s' := shrink s t idx in
+  data s' = data s /\ flag s' = flag s /\ stale s' = stale s /\ curr s' = curr s /\ losts s' = losts s /\ pdone s' = pdone s /\
+  plog s' = plog s /\ chan s' = chan s /\ shl s' = shl s /\ bwl s' = bwl s /\ ws s' = ws s /\ lostcnt s' = lostcnt s /\
+  gmark s' = gmark s /\ stopped s' = stopped s /\ joined s' = joined s /\ file s' = file s /\
+  (forall t', t' <> t -> nbuf s' t' = nbuf s t') /\
+  (nbuf s' t = nbuf s t \/ (nbuf s' t = nbuf s t - 1 /\ idx + 3 <= nbuf s t /\ is_wr (flag s (t, nbuf s t - 1)) = true)).
+Proof.
+  unfold shrink. destruct (idx + 3 <=? nbuf s t) eqn:E1; [|repeat split; auto].
+  destruct (_ && _) eqn:E2; [|repeat split; auto].
+  apply andb_prop in E2. destruct E2 as [_ E2]. apply Nat.leb_le in E1.
+  repeat split; sp.
+  - intros t' Hne. apply updt_other. assumption.
+  - right. rewrite updt_same. auto.
+Qed.
+
+Lemma is_wr_norec f : is_wr f = true -> f_rec f = false.
+Proof. unfold is_wr. destruct (f_new f), (f_wr f), (f_rec f); cbn; congruence. Qed.
+
+Lemma inv_take0 s t idx : Inv s -> stopped s = false -> curr s t = None -> idx < nbuf s t ->
+  f_rec (flag s (t, idx)) = false ->
+  Inv (take0 s t idx) /\ stopped (take0 s t idx) = false /\ curr (take0 s t idx) t = Some idx /\
+  data (take0 s t idx) (t, idx) = [].
+Proof.
+  intros I Es Hc Hlt Hfr. set (b := (t, idx)).
+  unfold take0. fold b.
+  set (s3 := set_data _ _).
+  destruct (shrink_fields s3 t idx) as (S1 & S2 & S3 & S4 & S5 & S6 & S7 & S8 & S9 & S10 & S11 & S12 & S13 & S14 & S15 & S16 & S17 & S18).
+  set (s4 := shrink s3 t idx) in *.
+  assert (S17' : forall t', t' <> t -> nbuf s4 t' = nbuf s t') by exact S17.
+  assert (S18' : nbuf s4 t = nbuf s t \/ (nbuf s4 t = nbuf s t - 1 /\ idx + 3 <= nbuf s t /\ is_wr (flag s3 (t, nbuf s t - 1)) = true)) by exact S18.
+  clear S17 S18. rename S17' into S17. rename S18' into S18.
+  set (s5 := set_chan s4 _).
+  assert (Hnb : ~ In b (chain s t)) by (apply not_in_chain_norec; assumption).
+  assert (Hch : forall t', chain s5 t' = chain s t' ++ (if t' =? t then [b] else [])).
+  { intro t'. unfold chain, pend, curr_l, s5; sp. rewrite S14, S11, S10, S8, S4. unfold s3; sp. rewrite Es.
+    rewrite ends_snoc_other by (intros; discriminate). unfold updt.
+    destruct (Nat.eqb_spec t' t) as [->|Hne]; [rewrite Hc|]; rewrite <- ?app_assoc; rewrite ?app_nil_r; reflexivity. }
+  assert (Hda : data s5 = upd (data s) b []) by (unfold s5; sp; rewrite S1; reflexivity).
+  assert (Hfl : flag s5 = upd (flag s) b (set_rec (flag s b))) by (unfold s5; sp; rewrite S2; reflexivity).
+  assert (Hnbuf : forall t' x, In x (chain s t') -> snd x < nbuf s5 t').
+  { intros t' x Hx. destruct (I_own s I t' x Hx) as (Hf & Hl & Hr). unfold s5; sp.
+    destruct (Nat.eq_dec t' t) as [->|Hne]; [|rewrite S17 by assumption; assumption].
+    destruct S18 as [->|(-> & Hi & Hw)]; [assumption|].
+    assert (x <> (t, nbuf s t - 1)).
+    { intro; subst x. unfold s3 in Hw; sp_in Hw. rewrite upd_other in Hw by (unfold b; intro E; injection E as E1; lia).
+      apply is_wr_norec in Hw. congruence. }
+    destruct x as [x1 x2]. cbn [fst snd] in *. subst x1. assert (x2 <> nbuf s t - 1) by congruence. lia. }
+  split; [|split; [|split]].
+  - apply Inv_intro.
+    + unfold InvB. change (ws s5) with (ws s4). change (bwl s5) with (bwl s4). rewrite S11, S10. change (ws s3) with (ws s). change (bwl s3) with (bwl s).
+      refine (conj _ (conj _ (conj _ (conj (I_idle s I) (conj (I_wt s I) (conj (I_one s I) _)))))).
+      * intro t'. unfold content, emitted. rewrite Hch, Hda. change (file s5) with (file s4). change (plog s5) with (plog s4).
+        rewrite S16, S7. change (file s3) with (file s). change (plog s3) with (plog s).
+        pose proof (I_content s I t') as E. unfold content, emitted in E. rewrite <- E. rewrite flat_map_app.
+        destruct (Nat.eqb_spec t' t) as [->|Hne].
+        -- cbn [flat_map]. rewrite upd_same, !app_nil_r. rewrite flat_map_upd_notin by assumption. reflexivity.
+        -- cbn [flat_map]. rewrite app_nil_r. rewrite flat_map_upd_notin; [reflexivity|].
+           eapply not_in_chain_other; [eassumption|reflexivity|assumption].
+      * intro t'. rewrite Hch. destruct (Nat.eqb_spec t' t) as [->|Hne]; [|rewrite app_nil_r; apply (I_nodup s I)].
+        apply NoDup_app_intro; [apply (I_nodup s I)|repeat constructor; tauto|]. intros x H1 [<-|[]]. contradiction.
+      * intros t' x Hx. rewrite Hch in Hx. apply in_app_or in Hx. destruct Hx as [Hx|Hx].
+        -- destruct (I_own s I t' x Hx) as (Hf & Hl & Hr). split; [assumption|]. split; [apply Hnbuf; assumption|].
+           rewrite Hfl, upd_other; [assumption|]. intro; subst x. apply Hnb. cbn [fst] in Hf. subst t'. assumption.
+        -- destruct (Nat.eqb_spec t' t) as [->|Hne]; [|destruct Hx]. destruct Hx as [<-|[]]. split; [reflexivity|]. split.
+           ++ unfold s5; sp. cbn [snd b]. destruct S18 as [->|(-> & Hi & _)]; [assumption|lia].
+           ++ rewrite Hfl, upd_same. reflexivity.
+      * intros w Hw Hwo. destruct (I_wrote s I w Hw Hwo) as (b0 & r0 & Eh & Hd0). exists b0, r0. split; [assumption|].
+        rewrite Hda. unfold upd. destruct (bid_eqb b0 b); [reflexivity|assumption].
+    + unfold s5; sp. rewrite S14. unfold s3; sp. congruence.
+    + unfold s5; sp. rewrite S15. unfold s3; sp. intro J. rewrite (not_joined s I Es) in J. discriminate.
+    + intros _ t'. unfold curr_l, s5; sp. rewrite S9, S8, S4. unfold s3; sp. pose proof (I_chan s I Es t') as CK. unfold curr_l in CK.
+      unfold updt. destruct (Nat.eqb_spec t' t) as [->|Hne].
+      * rewrite Hc in CK. apply chan_ok_app_start; [reflexivity|assumption].
+      * apply chan_ok_app_other; [cbn; congruence|assumption].
+    + unfold s5; sp. rewrite S12, S8, S13. unfold s3; sp. rewrite chan_lost_app. cbn [chan_lost]. rewrite N.add_0_r. apply I.
+  - unfold s5; sp. rewrite S14. exact Es.
+  - unfold s5; sp. rewrite S4. unfold s3; sp. apply updt_same.
+  - rewrite Hda. apply upd_same.
+Qed.
+
+Lemma inv_take s t idx r : Inv s -> stopped s = false -> curr s t = None -> idx < nbuf s t ->
+  f_rec (flag s (t, idx)) = false -> Inv (take s t idx r).
+Proof.
+  intros I Es Hc Hlt Hfr. rewrite take_eq.
+  destruct (inv_take0 s t idx I Es Hc Hlt Hfr) as (I0 & Es0 & Hc0 & Hd0).
+  destruct (losts (take0 s t idx) t =? 0)%N.
+  - apply inv_append; assumption.
+  - apply inv_append; [apply inv_marker; assumption|exact Es0|exact Hc0].
+Qed.
+
+(* ------------------------------------------------------------------ a new buffer at index nr_buf *)
+Lemma inv_grow s t : Inv s -> Inv (grow s t) /\ stopped (grow s t) = stopped s /\ curr (grow s t) = curr s /\
+  nbuf (grow s t) t = S (nbuf s t) /\ f_rec (flag (grow s t) (t, nbuf s t)) = false.
+Proof.
+  intro I. unfold grow. set (b := (t, nbuf s t)).
+  assert (Hnb : forall t', ~ In b (chain s t')).
+  { intros t' Hin. destruct (I_own s I t' b Hin) as (Hf & Hl & _). cbn [fst snd b] in *. subst t'. lia. }
+  split; [|sp; repeat split; [apply updt_same|rewrite upd_same; reflexivity]].
+  apply Inv_intro; sp; try (apply I).
+  unfold InvB; sp. refine (conj _ (conj _ (conj _ (conj (I_idle s I) (conj (I_wt s I) (conj (I_one s I) _)))))).
+  1-3: set (s' := set_nbuf _ _);
+    assert (Hch : forall t', chain s' t' = chain s t') by reflexivity;
+    destruct (frame_buffers_e s s' I Hch) as (A & B & C); try assumption; try reflexivity.
+  - intros t' x Hx. unfold s'; sp. apply upd_other. intro; subst x. eapply Hnb; eassumption.
+  - intros t' x Hx. unfold s'; sp. apply upd_other. intro; subst x. eapply Hnb; eassumption.
+  - intro t'. unfold s'; sp. unfold updt. destruct (t' =? t) eqn:E; [apply Nat.eqb_eq in E; subst; lia|lia].
+  - intros t' x Hx. unfold s'; sp. apply upd_other. intro; subst x. eapply Hnb; eassumption.
+  - intros t' x Hx. unfold s'; sp. apply upd_other. intro; subst x. eapply Hnb; eassumption.
+  - intro t'. unfold s'; sp. unfold updt. destruct (t' =? t) eqn:E; [apply Nat.eqb_eq in E; subst; lia|lia].
+  - intros t' x Hx. unfold s'; sp. apply upd_other. intro; subst x. eapply Hnb; eassumption.
+  - intros t' x Hx. unfold s'; sp. apply upd_other. intro; subst x. eapply Hnb; eassumption.
+  - intro t'. unfold s'; sp. unfold updt. destruct (t' =? t) eqn:E; [apply Nat.eqb_eq in E; subst; lia|lia].
+  - intros w Hw Hwo. destruct (I_wrote s I w Hw Hwo) as (b0 & r0 & Eh & Hd0). exists b0, r0. split; [assumption|].
+    unfold upd. destruct (bid_eqb b0 b); [reflexivity|assumption].
+Qed.
